@@ -7,7 +7,9 @@
 From stdpp Require Import gmap.
 From Coq Require Import Strings.String List ZArith.
 From RV Require Import Irc.Str Irc.State Irc.Cmds Irc.Apply.
-From RV Require Import IrcProofs.Inv IrcProofs.Top IrcProofs.Misc.
+From Coq Require Import NArith Sorting.Sorted.
+From RV Require Import IrcProofs.Inv IrcProofs.Top IrcProofs.Misc IrcProofs.Examples.
+From RV Require Import IrcProofs.ReloadInv IrcProofs.ReloadSim IrcProofs.Reload IrcProofs.ReloadLive.
 
 Theorem C03_index_rebuilt : forall sv, EInv sv -> forall n, sv_nicks (reload sv) !! n = sv_nicks sv !! n.
 Proof. exact reload_nicks. Qed.
@@ -29,3 +31,97 @@ Print Assumptions C03_invariant_preserved.
 Theorem C03_refuted_whitelisted_origins : forall sv, g_whitelistedOrigins (sv_config (reload sv)) = ∅.
 Proof. exact reload_drops_whitelisted_origins. Qed.
 Print Assumptions C03_refuted_whitelisted_origins.
+
+(* (1) the side conditions of C03_session_exact hold of every session of every reachable state *)
+Theorem C03_reachable_sessions_exact : forall e net sv, reachable e net sv ->
+  forall (k : N * N) s, sv_sessions sv !! k = Some s ->
+    (0 < s_created s)%Z /\ s_lastNonPing s <> None /\ s_deleted s = false.
+Proof. exact reachable_sessions. Qed.
+Print Assumptions C03_reachable_sessions_exact.
+
+Theorem C03_reachable_session_reproduced : forall e net sv, reachable e net sv ->
+  forall (k : N * N) s, sv_sessions sv !! k = Some s -> reload_session s = s.
+Proof. exact reachable_reload_session. Qed.
+Print Assumptions C03_reachable_session_reproduced.
+
+Theorem C03_raft_timestamps_suffice : forall es hi,
+  history_ids_ok hi es -> Forall (fun en => (0 <= entry_un en)%Z) es -> Forall ts_pos es.
+Proof. intros es hi. exact (history_ids_ts_pos es hi). Qed.
+Print Assumptions C03_raft_timestamps_suffice.
+
+(* (2) save + load is the identity up to two normalisations *)
+Theorem C03_fixpoint : forall e net sv, reachable e net sv -> reload sv = normal sv.
+Proof. exact reload_fixpoint. Qed.
+Print Assumptions C03_fixpoint.
+
+Theorem C03_idempotent : forall e net sv, reachable e net sv -> reload (reload sv) = reload sv.
+Proof. exact reload_idempotent. Qed.
+Print Assumptions C03_idempotent.
+
+Theorem C03_serverSessions_unchanged_iff : forall sv,
+  sv_serverSessions (normal sv) = sv_serverSessions sv <->
+  StronglySorted N.lt (sv_serverSessions sv) /\ forall x, In x (sv_serverSessions sv) -> is_server_id sv x = true.
+Proof. exact normal_serverSessions_id_iff. Qed.
+Print Assumptions C03_serverSessions_unchanged_iff.
+
+Theorem C03_drops_exactly_stale_ids : forall e net sv, reachable e net sv ->
+  forall x, In x (sv_serverSessions (reload sv)) <-> In x (sv_serverSessions sv) /\ stale sv x = false.
+Proof. exact reload_drops_exactly_stale. Qed.
+Print Assumptions C03_drops_exactly_stale_ids.
+
+(* not invariants of the implementation (D13; registration order) *)
+Theorem C03_refuted_serverSessions_stale :
+  exists e net sv, reachable e net sv /\ sv_serverSessions (reload sv) <> sv_serverSessions sv /\ ~ no_stale sv.
+Proof. exact serverSessions_stale_refuted. Qed.
+Print Assumptions C03_refuted_serverSessions_stale.
+
+Theorem C03_refuted_serverSessions_order :
+  exists e net sv, reachable e net sv /\ no_stale sv /\ sv_serverSessions (reload sv) <> sv_serverSessions sv.
+Proof. exact serverSessions_order_refuted. Qed.
+Print Assumptions C03_refuted_serverSessions_order.
+
+(* (3) every continuation *)
+Theorem C03_invisible : forall e net sv, reachable e net sv ->
+  forall e' es, Forall2 (Rout (stale sv)) (run_trace e' (reload sv) es) (run_trace e' sv es).
+Proof. exact reload_invisible. Qed.
+Print Assumptions C03_invisible.
+
+Theorem C03_invisible_exact : forall e net sv, reachable e net sv -> no_stale sv ->
+  forall e' es, Forall2 same_outcome (run_trace e' (reload sv) es) (run_trace e' sv es).
+Proof. exact reload_invisible_exact. Qed.
+Print Assumptions C03_invisible_exact.
+
+Theorem C03_commutes : forall e net sv, reachable e net sv ->
+  forall e' es,
+    match run e' (reload sv) es, run e' sv es with
+    | Some s1, Some s2 => reload s1 = reload s2
+    | None, None => True
+    | _, _ => False
+    end.
+Proof. exact reload_commutes. Qed.
+Print Assumptions C03_commutes.
+
+Theorem C03_bisimulation : forall D e sv1 sv2 en, R D sv1 sv2 -> Rout D (apply_entry e sv1 en) (apply_entry e sv2 en).
+Proof. exact apply_entry_sim. Qed.
+Print Assumptions C03_bisimulation.
+
+(* under raft's id discipline the dropped recipients are dead: the same output to every live session *)
+Theorem C03_stale_ids_dead : forall e net es sv,
+  wf_history e (init_server net) es -> history_ids_ok 0 es -> run e (init_server net) es = Some sv ->
+  forall es' sv', wf_history e sv es' -> history_ids_ok (last_id 0 es) es' -> run e sv es' = Some sv' ->
+  forall x, stale sv x = true -> sv_sessions sv' !! (x, 0%N) = None.
+Proof. exact stale_stay_dead. Qed.
+Print Assumptions C03_stale_ids_dead.
+
+Theorem C03_invisible_to_live_sessions : forall e net es sv,
+  wf_history e (init_server net) es -> history_ids_ok 0 es -> Forall (fun en => (0 <= entry_un en)%Z) es ->
+  run e (init_server net) es = Some sv ->
+  forall es', wf_history e sv es' -> history_ids_ok (last_id 0 es) es' -> live_equiv e (reload sv) sv es'.
+Proof. exact reload_invisible_live. Qed.
+Print Assumptions C03_invisible_to_live_sessions.
+
+(* non-vacuity *)
+Theorem C03_example_reachable : reachable ex_env "robustirc.net"%string ex_final /\ reachable ex_env "robustirc.net"%string link_final /\
+  reachable ex_env "robustirc.net"%string stale_final.
+Proof. exact (conj ex_reachable (conj link_reachable stale_reachable)). Qed.
+Print Assumptions C03_example_reachable.
